@@ -60,11 +60,7 @@ Theorem C12_issue_sound_refuted_datacenter :
   exists e az c s crt s' u id,
     sign_request e az c s = Ok (crt, s') /\ csr_uris c = [u] /\ parse_cert_uri u = Ok id /\
     id_dc id <> e_dc e.
-Proof.
-  exists w_env, w_az, (w_csr w_agent_dc2), empty_store, (Cert [w_agent_dc2] [] [] false 1),
-         (incr_serial empty_store), w_agent_dc2, (IdAgent w_td "default" "dc2" "n1").
-  destruct w_agent_dc2_issued as [H1 H2]. repeat split; try assumption. discriminate.
-Qed.
+Proof. exact refuted_datacenter. Qed.
 
 (* Trust domain: the same token, a foreign host and the spelling "/ap/default/agent/client/..."
    (or any percent-escape, query, fragment): SignCertificate's "fix the trust domain" compares
@@ -73,11 +69,7 @@ Theorem C12_issue_sound_refuted_trust_domain :
   exists e az c s crt s' u',
     sign_request e az c s = Ok (crt, s') /\ c_uris crt = [u'] /\
     lower (u_host u') <> trust_domain e.
-Proof.
-  exists w_env, w_az, (w_csr w_agent_foreign), empty_store, (Cert [w_agent_foreign] [] [] false 1),
-         (incr_serial empty_store), w_agent_foreign.
-  destruct w_agent_foreign_issued as [H1 H2]. repeat split; assumption.
-Qed.
+Proof. exact refuted_trust_domain. Qed.
 
 (* ------------------------------------------------------------------ identities and their spelling *)
 
@@ -123,12 +115,7 @@ Theorem C12_cert_identity_readable_refuted :
   exists e az c s crt s' u id,
     sign_request e az c s = Ok (crt, s') /\ url_wf u /\ csr_uris c = [u] /\ c_uris crt = [u] /\
     parse_cert_uri u = Ok id /\ parse_cert_uri (reparse u) = Err PFormat.
-Proof.
-  exists w_env, w_az_any, (w_csr w_slash), empty_store, (Cert [w_slash] [] [] false 1),
-         (incr_serial empty_store), w_slash, (IdService w_td "default" "default" "dc1" "web/x ").
-  destruct w_slash_issued as (H1 & H2 & H3 & H4).
-  repeat split; try assumption. right. split; [reflexivity | discriminate].
-Qed.
+Proof. exact refuted_readable. Qed.
 
 (* ------------------------------------------------------------------ serial numbers *)
 
@@ -207,13 +194,13 @@ Example C12_agent_example :
   agent_exception w_env w_agent_dummy (IdAgent "dummy.consul" "default" "dc1" "n1") = false /\
   sign_request w_env w_az (w_csr w_agent_dummy) empty_store =
     Ok (Cert [Url "spiffe" w_td "/agent/client/dc/dc1/id/n1" "" true] [] [] false 1, incr_serial empty_store).
-Proof. split; [vm_compute; reflexivity | exact w_agent_dummy_issued]. Qed.
+Proof. exact agent_example. Qed.
 
 (* well-formed identities exist for [C12_parse_print] *)
 Example C12_wf_id_example :
   wf_id (IdService w_td "default" "default" "dc1" "web") /\ wf_id (IdAgent w_td "default" "dc1" "n1") /\
   wf_id (IdGateway w_td "default" "dc1") /\ wf_id (IdServer w_td "dc1").
-Proof. vm_compute. repeat split. Qed.
+Proof. exact wf_id_example. Qed.
 
 (* a reachable state with a rotated root set, a refused stale update, an issued serial *)
 Example C12_reach_example :
